@@ -19,6 +19,7 @@ package message
 import (
 	"context"
 	"fmt"
+	"os"
 	"runtime"
 	"sort"
 	"sync"
@@ -245,7 +246,7 @@ type world struct {
 	checkedAfter bool // a full check happened after a reopen / lease reclamation
 	disturbed    bool // a reopen or lease reclamation happened since the last full check
 	crashChecked [crashModes]int
-	crashSeen    map[string]struct{}
+	crashSeen    map[string][]int
 	ackedMuts    int
 }
 
@@ -413,7 +414,7 @@ func runStore(t *testing.T, r *simkit.Run) {
 		"crash": c.Crash, "crash_open": c.CrashOpen, "torn_pct": c.TornPct, "group_w": c.GroupW, "big": c.BigPayload,
 		"prelude": c.Prelude, "shrink_bias": c.ShrinkBias}
 	r.Logf("cfg %v", simkitConfigLine(r.Config))
-	w := &world{t: t, r: r, c: c, ctx: context.Background(), disk: newSimDisk(), liveIDs: map[uint64]idLoc{}, nextID: 1000, crashSeen: map[string]struct{}{}}
+	w := &world{t: t, r: r, c: c, ctx: context.Background(), disk: newSimDisk(), liveIDs: map[uint64]idLoc{}, nextID: 1000, crashSeen: map[string][]int{}}
 	w.disk.tornPct = c.TornPct
 	w.disk.tornSeed = r.Tape.Uint64()
 	w.disk.snapshot = w.snapshot
@@ -429,6 +430,11 @@ func runStore(t *testing.T, r *simkit.Run) {
 	runtime.GC()
 	runtime.GC()
 	w.finish()
+	if os.Getenv("VERIF_DEBUG_TRACE") != "" {
+		for _, l := range r.Trace() {
+			fmt.Println("TRACE " + l)
+		}
+	}
 }
 
 func simkitConfigLine(m map[string]any) string {
